@@ -130,6 +130,7 @@ use iceoryx2_cal::zero_copy_connection::{
 };
 use iceoryx2_log::{fail, warn};
 
+use crate::node::PortTag;
 use crate::port::details::chunk::ChunkMut;
 use crate::port::details::data_segment_shared_state::DataSegmentSharedState;
 use crate::port::details::sender::*;
@@ -207,7 +208,7 @@ pub struct PublisherSharedState<Service: service::Service> {
     // the struct.
     // Otherwise the process might crash during cleanup, has already removed the tag but other resources
     // are still existing. This would make a cleanup from another process impossible.
-    port_tag: Service::StaticStorage,
+    port_tag: PortTag<Service>,
 }
 
 impl<Service: service::Service> DataSegmentSharedState for PublisherSharedState<Service> {
@@ -263,7 +264,7 @@ impl<Service: service::Service> Abandonable for PublisherSharedState<Service> {
                 NonNull::from_mut(&mut this.sender),
             )
         }
-        unsafe { Service::StaticStorage::abandon_in_place(NonNull::from_mut(&mut this.port_tag)) }
+        unsafe { PortTag::<Service>::abandon_in_place(NonNull::from_mut(&mut this.port_tag)) }
     }
 }
 
